@@ -41,3 +41,68 @@ Theorem exception_attributed_sequential :
     all_ok pre ->
     imap pool_size false (pre ++ Exc e :: post) arrival split = (pre, Some e).
 Proof. exact imap_raise_sequential. Qed.
+
+(* ---- worker/consumer handshake (result_queue.put before task_queue.task_done) ---- *)
+From MP Require Import PoolSync PoolSync_proofs.
+
+(* For every interleaving of the workers' put / task_done calls in which each task_done(i) follows put(i)
+   (what ThreadWorker.run does), the consumer - whose second drain phase starts when task_queue.join()
+   returns and may see `extra` further events - receives every result exactly once and in input order;
+   nothing that is put is ever left behind in the queue. *)
+Theorem handshake_no_result_lost :
+  forall raise_exc items tr split extra r,
+    wf_trace (length items) tr = true ->
+    (raise_exc = true -> all_ok items) ->
+    map_each_ev raise_exc items tr split extra = Some r -> r = (items, None).
+Proof. exact map_each_ev_all. Qed.
+
+(* ... and join does return once every task was marked done (termination of the hand-over). *)
+Theorem handshake_join_returns :
+  forall need tr, need <= length (dones tr) -> exists vr, visible need tr = Some vr.
+Proof. exact visible_some. Qed.
+
+(* The order matters: with task_done before put there is a schedule that loses a result. *)
+Theorem handshake_done_before_put_refuted :
+  exists items tr, map_each_ev false items tr 0 0 = Some ([Ok 1], None) /\ items = [Ok 1; Ok 2]
+                   /\ wf_trace 2 tr = false.
+Proof. exact handshake_done_before_put_loses. Qed.
+
+(* ---- consumers of result objects (cache/tile.py, service/wms.py) ---- *)
+
+(* _create_bulk_meta_tile: whatever the completion order, if some tile request failed the exception of the
+   first failing tile (input order) is re-raised and nothing is stored; otherwise exactly the non-blank
+   tiles are stored, in input order. *)
+Theorem bulk_meta_tile_consumer :
+  forall pool_size items arrival split,
+    is_perm arrival (length items) ->
+    bulk_meta pool_size items arrival split =
+    match first_exc items with Some e => ([], Some e) | None => (nonblank items, None) end.
+Proof. exact bulk_meta_spec. Qed.
+
+(* LayerRenderer, raise mode: layers are added bottom-up until the first failing layer, whose exception is
+   raised; no failure: all layers added in order. *)
+Theorem render_raise_consumer_failure :
+  forall pool_size pre e post arrival split,
+    is_perm arrival (length (pre ++ Exc e :: post)) -> all_ok pre ->
+    render_raise pool_size (pre ++ Exc e :: post) arrival split = (nonblank pre, Some e).
+Proof. exact render_raise_first_failure. Qed.
+
+Theorem render_raise_consumer_all :
+  forall pool_size items arrival split,
+    is_perm arrival (length items) -> all_ok items ->
+    render_raise pool_size items arrival split = (nonblank items, None).
+Proof. exact render_raise_all. Qed.
+
+(* LayerRenderer, capture mode: an exception that is not a SourceError is never swallowed, and the outcome
+   does not depend on the completion order. *)
+Theorem render_capture_hard_exception_raised :
+  forall pool_size items arrival split e,
+    is_perm arrival (length items) -> first_hard_exc items = Some e ->
+    snd (render_capture pool_size items arrival split) = Some e.
+Proof. exact render_capture_hard_exception. Qed.
+
+Theorem render_capture_completion_order_irrelevant :
+  forall pool_size items arr arr' split split',
+    is_perm arr (length items) -> is_perm arr' (length items) ->
+    render_capture pool_size items arr split = render_capture pool_size items arr' split'.
+Proof. exact render_capture_order_independent. Qed.
